@@ -23,12 +23,12 @@ CLAIMS = {
 CLAIMS["C11"] = dict(
   level="other",
   technique="static analysis: typestate/must-pass-through on the SSA CFG (MakeRaw→defer Restore pairing), backward value slices, dominance, table agreement; repeated per GOOS in the thorough tier",
-  text="Decides, for every path of the current source, the pairing and ordering facts the property rests on: MakeRaw/defer Restore typestate with the same fd and state in every caller, the State snapshot is taken before modification and written back by Restore, deferred default-cursor-style print before the main loop, AcceptLine dominates every Accept and ends with CR LF, no nil-error dereference on the editor failure path; the missing fresh-row move on the panic exit is reported as a known finding. The terminal's resulting state itself is not decided.",
+  text="Decides, for every path of the current source, the pairing and ordering facts the property rests on: MakeRaw/defer Restore typestate with the same fd and state in every caller, the State snapshot is taken before modification and written back by Restore, deferred default-cursor-style print before the main loop, AcceptLine dominates every Accept and ends with CR LF, no nil-error dereference on the editor failure path; the missing fresh-row move on the panic exit is reported as a known finding. The terminal's resulting state itself is not decided. The AcceptLine rule is stated on what computeCoordinates does under the flag AcceptLine passes (the suggested line is not measured), not on the literal.",
   ref="§5 C11")
 CLAIMS["C13"] = dict(
   level="other",
   technique="static analysis: dominating-guard facts on the condition stack, must-depend (data+control dependence) slices, only-writer and argument-flow checks over go/ssa",
-  text="Decides that every handler effect of the inputrc parser is dominated by the top-of-stack test, that the pushed/toggled condition depends on the enclosing level (violated on the pinned tree: known finding, pinned tests expect the leak), that keymap/sequence/action/macro flow unswapped into the bind table, and the $if form ↔ option field table. The full iff over all programs (scanner classification of tokens) is not decided.",
+  text="Decides that every handler effect of the inputrc parser is dominated by the top-of-stack test, that the pushed/toggled condition depends on the enclosing level (violated on the pinned tree: known finding, pinned tests expect the leak), that keymap/sequence/action/macro flow unswapped into the bind table, and the $if form ↔ option field table. The full iff over all programs (scanner classification of tokens) is not decided. Known finding since round 6: ReloadConfig parses the user's file a first time for the application name `go` without mode or terminal (C13.parse-with-application-options).",
   ref="§5 C13")
 
 CLAIMS["C18"] = dict(
@@ -45,7 +45,7 @@ CLAIMS["C03"] = dict(
 CLAIMS["C07"] = dict(
   level="other",
   technique="static analysis: must-pass-through on the SSA CFG, backward value slices from Line.Set/Cursor.Set to the saved-states list, memory-aware dominating guards on the undo index",
-  text="Decides that every command run ends in a save, that Undo/Redo set their flags on every path, that only saved states are ever restored, that Save truncates the redo branch before appending the current text under !skip, that Reset re-arms correctly, and that the undo position is only decremented under pos >= 1 and each items[len-pos] read carries its clamp. The sequence semantics over all command histories are not decided.",
+  text="Decides that every command run ends in a save, that Undo/Redo set their flags on every path, that only saved states are ever restored, that Save truncates the redo branch before appending the current text under !skip, that Reset re-arms correctly, and that the undo position is only decremented under pos >= 1 and each items[len-pos] read carries its clamp. The sequence semantics over all command histories are not decided. Also: Undo restarts its count of undone steps at 0 when it rewrites the list of states (C07.undo-position-restarts); Sources.Pos returns the number of undone steps (C07.pos-is-undone-count).",
   ref="§5 C07")
 CLAIMS["C10"] = dict(
   level="other",
@@ -56,24 +56,24 @@ CLAIMS["C10"] = dict(
 CLAIMS["C19"] = dict(
   level="other",
   technique="static analysis: writer/reader table extraction from SSA (case constants, emitted constants, consumed length), constant propagation through Encontrol, format-verb and guard checks, value slices of dump output",
-  text="Decides agreement of the escape writer's table with the unescape reader's cases (same rune, same consumed length), the hex fallback's verb/bound/composition, that numeric reader cases consume the digits they decode, that dumps escape what they print and spell booleans as the parser reads them. Round-trip equality for all strings is value-level and not decided.",
+  text="Decides agreement of the escape writer's table with the unescape reader's cases (same rune, same consumed length), the hex fallback's verb/bound/composition, that numeric reader cases consume the digits they decode, that dumps escape what they print and spell booleans as the parser reads them. Round-trip equality for all strings is value-level and not decided. Also: the function dump leaves macros out (C19.dump-functions-skip-macros).",
   ref="§5 C19")
 
 CLAIMS["C06"] = dict(
   level="other",
   technique="static analysis: effect reachability over the VTA call graph against an inventory of primitive core.Line writes (with fresh-receiver and constant-parameter refinement), must-pass-through and only-writer checks",
-  text="For the movement/copy clause the check is sufficient: none of the 51 tabled commands can reach a primitive write to a shared core.Line except reviewed (command, site) pairs, so they cannot change the text (modulo call-graph soundness, inventoried). Also decides the post-command cursor check, the API clamps' presence, and that the returned line is the buffer at acceptance. It does not decide 0<=pos<=len for all command sequences.",
+  text="For the movement/copy clause the check is sufficient: none of the 51 tabled commands can reach a primitive write to a shared core.Line except reviewed (command, site) pairs, so they cannot change the text (modulo call-graph soundness, inventoried). Also decides the post-command cursor check, the API clamps' presence, and that the returned line is the buffer at acceptance. It does not decide 0<=pos<=len for all command sequences. Also: init puts the cursor on a character in Vi command mode after history.Init installed a kept line (C06.init-clamps).",
   ref="§5 C06")
 CLAIMS["C09"] = dict(
   level="other",
   technique="static analysis: effect reachability (navigation commands vs history writers), sibling agreement of GetLine bounds guards, error-guard facts at call sites, backward value slices into Line.Set",
-  text="Sufficient for 'never modifies them': no navigation/search command can reach a history writer. Decides that every GetLine implementation is total and every call site checks the error before using the line, that the buffer only ever receives stored entries or saved states, and that Walk saves/restores the in-progress text. Order of entries and matching semantics are not decided. Also: a search text that does not compile is still given a matcher before the candidates are filtered; end-of-history walks past the newest entry; after a search-mode switch the cursor is not moved through stale pointers.",
+  text="Sufficient for 'never modifies them': no navigation/search command can reach a history writer. Decides that every GetLine implementation is total and every call site checks the error before using the line, that the buffer only ever receives stored entries or saved states, and that Walk saves/restores the in-progress text. Order of entries and matching semantics are not decided. Also: a search text that does not compile is still given a matcher before the candidates are filtered; end-of-history walks past the newest entry; after a search-mode switch the cursor is not moved through stale pointers. Also (rounds 6/7): saved line states are keyed by an index computed from Source.Len() (C09.line-state-key); a forward search with nothing newer restores the typed line like Walk does, never with Undo (C09.search-down-restores); the closing save is skipped once Accept has written the line (C09.no-save-after-growth); the incremental search selects a candidate or restores the typed text on every path (C09.isearch-restores-when-nothing-inserted); the position kept with a state is not pulled onto the last character (C09.saved-position-not-narrowed).",
   ref="§5 C09")
 
 CLAIMS["C16"] = dict(
   level="other",
   technique="static analysis: per-command idiom classification of what Buffers.Write stores (value slices, same-SSA-bounds pairing with Line.Cut, loop accumulation order), must-pass-through, ring-slot constant agreement",
-  text="Decides for each named kill command that what is stored is structurally what is removed (four accepted idioms), that every removing path records, that Selection.Cut reads before it mutates, that yank/put insert only the active buffer and that Write and Active use the same ring slot. Text equality after kill+yank for all buffers is not decided. Also: vi-delete cuts only while the cursor is before the end of the line; Line.Insert never keeps the slice it was given (the kill buffer).",
+  text="Decides for each named kill command that what is stored is structurally what is removed (four accepted idioms), that every removing path records, that Selection.Cut reads before it mutates, that yank/put insert only the active buffer and that Write and Active use the same ring slot. Text equality after kill+yank for all buffers is not decided. Also: vi-delete cuts only while the cursor is before the end of the line; Line.Insert never keeps the slice it was given (the kill buffer). Also: DropUnused runs after the reset that clears the flag it tests; a kill always lands on top of the ring, whatever its size (C16.ring-top-written).",
   ref="§5 C16")
 CLAIMS["C17"] = dict(
   level="other",
@@ -84,35 +84,35 @@ CLAIMS["C17"] = dict(
 CLAIMS["C14"] = dict(
   level="other",
   technique="static analysis: receiver/only-writer checks on the virtual line, shape and ordering of the Move/Cut/InsertAt triple (sibling agreement), guard facts in abort, must-pass-through in the main loop",
-  text="Decides that candidate insertion edits only a fresh copy of the line, that both insertion paths replace exactly [pos-len(prefix), pos) by the prepared candidate, that cancelling restores the virtual line from the real one, that abort only cancels while a completion is active, and that UpdateInserted separates the two keymap dispatches. Unit correctness of len(prefix) and text equality are not decided here (unit findings are reported separately). Also: the prefix is looked up from Pos()-1 unclamped; abort does not return while the menu-select keymap is active; Select enters the menu keymap before the selector moves; TrimSuffix removes the character before the cursor only when the candidate's suffix matcher designates it; wherever a candidate becomes part of the real line the prefix is emptied before returning (accept-and-menu-complete).",
+  text="Decides that candidate insertion edits only a fresh copy of the line, that both insertion paths replace exactly [pos-len(prefix), pos) by the prepared candidate, that cancelling restores the virtual line from the real one, that abort only cancels while a completion is active, and that UpdateInserted separates the two keymap dispatches. Unit correctness of len(prefix) and text equality are not decided here (unit findings are reported separately). Also: the prefix is looked up from Pos()-1 unclamped; abort does not return while the menu-select keymap is active; Select enters the menu keymap before the selector moves; TrimSuffix removes the character before the cursor only when the candidate's suffix matcher designates it; wherever a candidate becomes part of the real line the prefix is emptied before returning (accept-and-menu-complete). Also (rounds 6/7): every generation writes Engine.prefix afresh (C14.prefix-fresh); Ctrl-C is bound to abort in the local keymaps installed by loadBuiltinBinds (C14.abort-bound-everywhere); as-you-type completions are regenerated on every redisplay (C14.autocomplete-every-redisplay); the application's PREFIX is taken untrimmed (C14.given-prefix-untrimmed); a restored cursor position is set after the restored line (C14.cursor-after-line).",
   ref="§5 C14")
 
 CLAIMS["C01"] = dict(
   level="other",
   technique="static analysis: whole-module inventories over go/ssa and the VTA call graph — loop termination variants (P1–P5 + reviewed table with re-checked conditions), call-graph SCCs, explicit panics, nil-contradiction and nil-call guards, divisor guards, input-buffer length guards, read-error propagation, channel-send protocol; zone-domain abstract interpretation (difference constraints, contracts, state getters, class invariants, effect summaries over the call graph) proving every index and slice bound of the commands and editing primitives non-negative; the same prover on every package but inputrc (C12) and the completion menu grid, with the upper bound and ordering clauses, heap length terms for the shared line, and a self-test of the engine on synthetic unsafe functions; who-may-write / budget rules for the fed-key queue and the active history source",
-  text="Decides necessary conditions of 'never crashes, spins or deadlocks' for every function reachable from Readline, the commands and the exported API: each loop has a termination variant or a reviewed ranking argument, each recursion a checked bound, no explicit panic, no unguarded nil call / nil dereference after a nil comparison / variable division / input-buffer index, read errors leave the wait loop and reach the caller, sends cannot block in the sequential flow (the cursor-report hand-off is a known finding); every index and slice bound of the module outside inputrc (proved under C12) and the completion menu grid is in range — non-negative, below the length, ordered — proved by the bounds prover or listed with a reviewed reason (about 2 300 obligations); a macro that runs itself is cut off (feed budget), the numeric argument is capped (postcondition of Iterations.Get), the index of the active history source stays in range, a possibly-nil command is never called. Not decided: the completion menu grid (the C15 problem), panics inside application callbacks.",
+  text="Decides necessary conditions of 'never crashes, spins or deadlocks' for every function reachable from Readline, the commands and the exported API: each loop has a termination variant or a reviewed ranking argument, each recursion a checked bound, no explicit panic, no unguarded nil call / nil dereference after a nil comparison / variable division / input-buffer index, read errors leave the wait loop and reach the caller, sends cannot block in the sequential flow (the cursor-report hand-off is a known finding); every index and slice bound of the module outside inputrc (proved under C12) and the completion menu grid is in range — non-negative, below the length, ordered — proved by the bounds prover or listed with a reviewed reason (about 2 300 obligations); a macro that runs itself is cut off (feed budget), the numeric argument is capped (postcondition of Iterations.Get), the index of the active history source stays in range, a possibly-nil command is never called. Not decided: the completion menu grid (the C15 problem), panics inside application callbacks. Since round 6/7 also: a pointer field dereferenced under the sole guard that another field is not nil is never left nil alone (C01.paired-nil); a map field made on first use is written only under a nil test or after being made (C01.nil-map-write); the count given to strings.Repeat is never negative (C01.repeat-count).",
   ref="§5 C01, §13")
 
 CLAIMS["C05"] = dict(
   level="other",
   technique="static analysis: only-reader inventory, path-complete byte-flow (must-pass-through + value slices) from each terminal read to the key buffer / hand-off / caller, dominating emptiness guards before a terminal read, ordering in the push-back functions; repeated for other unix GOOS in the thorough tier",
-  text="Decides necessary conditions of chunking independence: no path drops or bypasses bytes that were read (readers and all consumers keep everything), ReadKey drains pending keys before reading, partially matched keys are pushed back in front with mustWait computed first, buffered keys are used without reading. Schedule independence as such is not decided.",
+  text="Decides necessary conditions of chunking independence: no path drops or bypasses bytes that were read (readers and all consumers keep everything), ReadKey drains pending keys before reading, partially matched keys are pushed back in front with mustWait computed first, buffered keys are used without reading. Schedule independence as such is not decided. Also: bytes fresh from a terminal read are decoded to runes only up to their last whole character (C05.decode-whole-characters); every exit of dispatchCharacter reachable after a pop returns the popped bytes; known finding: abort's terminator query pops the keys typed behind the interrupt key (C05.terminator-query-consumes).",
   ref="§5 C05")
 
 CLAIMS["C02"] = dict(
   level="other",
   technique="static analysis: backward value slice of what self-insert inserts, must-pass-through and branch-fact rules on the main dispatcher (multibyte character assembly), on TrimSuffix, Quote/unescapeRunes and Sources.Accept, byte/rune/column unit analysis (abstract interpretation over go/ssa) on the insertion path, ordering check in Line.Insert, bind-table constants of the default keymaps",
-  text="Decides that self-insert inserts exactly the caller key on every non-autopair path; that the main dispatcher assembles a multibyte UTF-8 character no bind knows from the key queue, binds it whole to self-insert and waits for its last bytes (necessary because binds are matched byte-wise and hold no lead byte); that TrimSuffix removes text only for a registered suffix matcher; that Quote leaves an ordinary rune (a backslash included) alone; that Accept stores the buffer as the returned line on every path and run/Readline return it unmodified; that no column/byte quantity is used as a character position while inserting; that Line.Insert copies the tail before its in-place append; that every printable ASCII key is self-insert by default in emacs and vi-insert; and that meta conversion is guarded by convert-meta. Equality of returned and typed text for all inputs (value level) is not decided.",
+  text="Decides that self-insert inserts exactly the caller key on every non-autopair path; that the main dispatcher assembles a multibyte UTF-8 character no bind knows from the key queue, binds it whole to self-insert and waits for its last bytes (necessary because binds are matched byte-wise and hold no lead byte); that TrimSuffix removes text only for a registered suffix matcher; that Quote leaves an ordinary rune (a backslash included) alone; that Accept stores the buffer as the returned line on every path and run/Readline return it unmodified; that no column/byte quantity is used as a character position while inserting; that Line.Insert copies the tail before its in-place append; that every printable ASCII key is self-insert by default in emacs and vi-insert; and that meta conversion is guarded by convert-meta. Equality of returned and typed text for all inputs (value level) is not decided. Also: an orphan suffix matcher is dropped, not kept for a later line (C02.trim-orphan-dropped).",
   ref="§0, §5 C02")
 CLAIMS["C04"] = dict(
   level="other",
   technique="static analysis: byte/rune/column unit analysis over every function of the redisplay path, recompute-before-paint and clear-after-newline ordering (must-pass-through), only-writer check of the coordinate fields, agreement of the tab-expansion constants of the printing and measuring functions",
-  text="Decides that coordinates are recomputed before every use in Refresh/AcceptLine, that only computeCoordinates writes them, that no byte count is used as a rune index or as a column count anywhere on the display path (which is what misplaces the cursor or leaves remnants for multi-byte / double-width text), that a tab is measured as the same blanks it is printed as, and that the row entered when a line fills the width exactly is cleared. The painted grid itself needs a terminal model and is not decided. Round 5 added the conditions found with a terminal emulator in triage: no clear-to-end-of-row after a full row, the full-row test depends on more than lineCol, LineSpan does not divide a width that depends on the text, the multiline column always comes back down, hint lines are counted one row each, LastUsed is the prompt width, each printed line went through ClearWrapped. Multi-line buffers with wrapped or exactly full lines, and the secondary prompt's row, are NOT decided (known deviations, DESIGN §11).",
+  text="Decides that coordinates are recomputed before every use in Refresh/AcceptLine, that only computeCoordinates writes them, that no byte count is used as a rune index or as a column count anywhere on the display path (which is what misplaces the cursor or leaves remnants for multi-byte / double-width text), that a tab is measured as the same blanks it is printed as, and that the row entered when a line fills the width exactly is cleared. The painted grid itself needs a terminal model and is not decided. Round 5 added the conditions found with a terminal emulator in triage: no clear-to-end-of-row after a full row, the full-row test depends on more than lineCol, LineSpan does not divide a width that depends on the text, the multiline column always comes back down, hint lines are counted one row each, LastUsed is the prompt width, each printed line went through ClearWrapped. Multi-line buffers with wrapped or exactly full lines, and the secondary prompt's row, are NOT decided (known deviations, DESIGN §11). Also: completion.Display clears the screen below on every exit (C04.helpers-clear-below); the clear before a wrapped wide character is written only when the row is not full.",
   ref="§5 C04")
 CLAIMS["C20"] = dict(
   level="other",
   technique="static analysis: goroutine inventory, per-thread-root reachability over the VTA call graph combined with an intraprocedural must-lockset analysis of every field access, writes-under-RLock, blocking-under-lock, lock pairing and re-entrancy checks, channel-send protocol",
-  text="Decides which struct types are shared between the main loop, the resize goroutine and Printf without a common lock (the pinned design shares the whole editor state: known findings, one per struct type and thread pair), that no field is written under a read lock, that locks are paired and never re-entered, and that nothing blocks while Keys.mutex is held. Absence of races/deadlocks over all interleavings is not decided.",
+  text="Decides which struct types are shared between the main loop, the resize goroutine and Printf without a common lock (the pinned design shares the whole editor state: known findings, one per struct type and thread pair), that no field is written under a read lock, that locks are paired and never re-entered, and that nothing blocks while Keys.mutex is held. Absence of races/deadlocks over all interleavings is not decided. Also (rounds 6/7): group.termWidth is asked from the terminal when the group is built, or written by every entry reaching the constructor (C20.resize-fresh-width); a regeneration does not write Engine.selected (C20.regeneration-keeps-selection); the primary prompt is printed only through the display engine, which records it (C20.prompt-print-recorded); ReadKey reads again after a read that only held a cursor position report (C20.readkey-skips-report-only-read).",
   ref="§5 C20")
 
 CLAIMS["C12"] = dict(
